@@ -227,12 +227,13 @@ CHECKS['C11'] = dict(
          _mode_jobs('MODE_DYNDEP_BAD', [7, 15], suffix='_bad', reach=('truncated', 'rejected', 'accepted'), bounds='dyndep text truncated at every byte or one of 7 (8 with two dyndep files) ill-formed variants; dyndep file produced during the build or already present; -j in {1,2}') +
          _hist_jobs('CHECK_C11', 2, 2, [15]))
 
-SCENARIOS += ['cycle_explicit', 'cycle_order_only_implicit', 'cycle_multi_output', 'validation_on_requester', 'cycle_by_depfile', 'cycle_by_deps_log', 'self_cycle']
+SCENARIOS += ['cycle_explicit', 'cycle_order_only_implicit', 'cycle_multi_output', 'validation_on_requester', 'cycle_by_depfile', 'cycle_by_deps_log', 'self_cycle', 'cycle_by_dyndep_running']
 CHECKS['C17'] = dict(
     title='dependency cycles are always diagnosed, and only real ones',
     level_text='Symbolic invocations over the whole real pipeline on graphs with cycles of length 1-3 through explicit, implicit and order-only inputs and through multi-output statements, inside and outside the requested closure, closed by the manifest, by a depfile, by the deps log or (C11 job dyndep_bad) by a dyndep file mid-build, plus acyclic graphs in which validations depend on their requester or on each other. A depth-first search over the harness reference graph decides whether the needed part is cyclic; the solver is asked for a target subset / -j / schedule for which ninja does not fail with a "dependency cycle" error spelling out a closed chain of real input relations, runs a command of the cycle, rejects an acyclic graph, or ends with "stuck". Unbounded recursion and hangs are caught by the engine call-depth and step budgets.',
     level_note='Trusted base as C01 plus the 25-line cycle search and the message checker. Bounds: the seven cycle shapes of harness/scenarios.h, two invocations (the second after an edit, so that recorded depfile/deps-log information is in effect).',
     assumptions=_PIPE_ASSUME,
     jobs=_mode_jobs('MODE_CYCLE', [16, 17, 18, 22], reach=('cycle-diagnosed', 'acyclic-built'), bounds='symbolic target subset, -j in {1,2}, two invocations') +
+         _mode_jobs('MODE_CYCLE', [23], reach=('dyndep-cycle',), bounds='a dyndep file built during the build closes a cycle through a statement that may be running or finished when it is loaded; -j in {1,2}, every completion order') +
          _mode_jobs('MODE_CYCLE', [19], reach=('acyclic-built',), bounds='validations depending on their requester / on each other must not be reported as cycles') +
          _mode_jobs('MODE_CYCLE', [20, 21], reach=('acyclic-built', 'discovered-cycle-diagnosed'), bounds='a cycle closed by a depfile / by the deps log after the first build; the source edited or not in between'))
